@@ -249,6 +249,9 @@ def pack_dataclass(spec: ValueSpec) -> Optional[Expression]:
                 encoder=spec.builder.encoder,
             )
             != method_name
+            # a dialect-specific build goes to the per-dialect cache, so the
+            # default method of the class is not the one being built now
+            or spec.builder.dialect is not None
         ):
             builder = spec.builder.__class__(
                 spec.origin_type,
@@ -506,11 +509,14 @@ def pack_special_typing_primitive(spec: ValueSpec) -> Optional[Expression]:
                 get_class_that_defines_method(method_name, method_loc)
                 != method_loc
                 # not hasattr(self.cls, method_name)
-                and spec.builder.get_pack_method_name(
-                    format_name=spec.builder.format_name,
-                    encoder=spec.builder.encoder,
+                and (
+                    spec.builder.get_pack_method_name(
+                        format_name=spec.builder.format_name,
+                        encoder=spec.builder.encoder,
+                    )
+                    != method_name
+                    or spec.builder.dialect is not None
                 )
-                != method_name
             ):
                 builder = spec.builder.__class__(
                     spec.builder.cls,
